@@ -18,6 +18,8 @@ type Env struct {
 	xgs   map[*ssa.Function]*core.XG
 	anc   *anchors
 	sym   *core.Symbolizer
+	sp    *spine
+	fmtc  *fmtInfo
 }
 
 var Registry = map[string]func(*Env){}
